@@ -668,8 +668,8 @@ def late_error(ctx, rid="C02.R4"):
         hs_tests = [t for t in g.tests() if isinstance(t.ast, ast.Attribute) and t.ast.attr == "headers_sent"]
         # the plain re-raise of the `except Exception` clause hands the exception to handle(), which writes an error
         # *response*: that is only allowed while no byte of this response is on the wire
-        rer = [n for n in g.stmts(ast.Raise) if n.ast.exc is None and (lambda h: h is not None and h.type is not None and norm(h.type) == "Exception")(f.module.enclosing(n.ast, ast.ExceptHandler))]
-        ctx.need(rer, rid + ": no re-raise in the `except Exception` clause of %s" % q)
+        rer = [n for n in g.stmts(ast.Raise) if n.ast.exc is None and (lambda h: h is not None and (h.type is None or norm(h.type) in ("Exception", "BaseException")))(f.module.enclosing(n.ast, ast.ExceptHandler))]
+        ctx.need(rer, rid + ": no re-raise in the catch-all clause of %s" % q)
 
         def sent_recog(e):
             if isinstance(e, ast.Attribute) and e.attr == "headers_sent":
@@ -682,6 +682,20 @@ def late_error(ctx, rid="C02.R4"):
                   "an application error is passed on to handle_error() (which writes a complete 500 response) without `%s.headers_sent` having been found false: "
                   "when the head is already on the wire the error page lands inside / behind the first response" % resp,
                   "re-raise only when no head was sent", path=p and g.fmt_path(p))
+        # ... and not only `Exception`s: in a worker whose handlers run in the main thread the SIGABRT (worker timeout) and
+        # SIGQUIT / SIGINT handlers raise SystemExit *inside the request* (gevent kills greenlets with GreenletExit, also a
+        # BaseException). Past a guard that only catches Exception it reaches handle()'s `except BaseException` clause, which
+        # calls handle_error(): a complete 500 response is written into the response that is in progress
+        if not q.startswith("gunicorn.workers.gthread."):          # (pool threads never run signal handlers)
+            from .c05 import _landing
+            wcalls = [c for c in method_calls(f, ("write", "write_file", "close")) if isinstance(c.func.value, ast.Name) and c.func.value.id == resp]
+            for c in wcalls[:1]:
+                h = _landing(repo, f, c, "SystemExit", follow_reraise=False)
+                guarded = h is not None and any(isinstance(x, ast.Attribute) and x.attr == "headers_sent" for x in ast.walk(h))
+                ctx.check(rid, guarded, key(f, "late-guard-covers-base-exceptions"), site(f, c),
+                          "a SystemExit raised inside the request by the worker's SIGABRT (timeout) / SIGQUIT handler -- or GreenletExit -- while the body is being sent is not caught by the "
+                          "`headers_sent` guard of %s (it catches Exception only): it reaches handle()'s `except BaseException`, whose handle_error() writes a complete 500 response into the "
+                          "response that is already on the wire" % f.short, "the headers_sent guard catches BaseException")
         for t in hs_tests:
             r = g.reachable([(t, "true")], follow_exc=True)
             leaves = g.exit not in r
@@ -874,6 +888,42 @@ def r7(ctx):
     ctx.check("C02.R7", bool(rets) and all(isinstance(r.ast.value, ast.Name) and r.ast.value.id == D for r in rets), key(f, "returns-what-it-read"), site(f),
               "the wrapper does not hand out exactly the block it read", "returns the block")
     ctx.check("C02.R7", "blksize" in norm(reads[0].ast.value), key(f, "reads-blksize"), site(f, reads[0]), "the wrapper does not read blksize bytes per step", "read(self.blksize)")
+    # the sendfile path sends what read() would have returned (PEP 3333: the wrapped object is read from its current position):
+    # evaluated with a file object whose own position (tell() = 7: the application read a magic number and seeked back a bit)
+    # differs from the position of its descriptor (lseek(fd, 0, SEEK_CUR) = 99: the end of the read-ahead buffer)
+    from ..absint import SpecObj
+    fs_ = ctx.fn(repo.func(RESP + ".sendfile"))
+    RI = fs_.params[1]
+
+    def at_sf(e):
+        if isinstance(e, ast.Call):
+            q_ = repo.call_target(fs_.module, fs_, e) or ""
+            if q_ == "os.lseek":
+                return "FDPOS"
+            if q_ == "os.fstat":
+                return "STAT"
+            if q_.endswith(".has_fileno"):
+                return "TRUE"
+            if isinstance(e.func, ast.Attribute) and e.func.attr == "can_sendfile":
+                return "TRUE"
+            if isinstance(e.func, ast.Attribute) and e.func.attr == "is_chunked":
+                return "CHUNKED"
+        return None
+
+    def tr_sf(ex, c, env):
+        off = next((ex.ev(k.value, env) for k in c.keywords if k.arg == "offset"), ex.ev(c.args[1], env) if len(c.args) > 1 else 0)
+        cnt = next((ex.ev(k.value, env) for k in c.keywords if k.arg == "count"), ex.ev(c.args[2], env) if len(c.args) > 2 else None)
+        return (off, cnt)
+    from ..absint import Inst
+    fobj = Inst("io.BufferedReader", tell=lambda: 7, fileno=lambda: 5)
+    envs = {"FDPOS": 99, "STAT": SpecObj(st_size=100), "TRUE": True, "CHUNKED": False, "self.cfg.is_ssl": False, "self.response_length": None, "self.sent": 0,
+            RI: SpecObj(filelike=fobj)}
+    outs_sf = [o for o in Explorer(fs_, atom_of=at_sf, call_trace={".sendfile": tr_sf}).run(fs_.cfg.entry, envs) if o.kind == "return"]
+    sent = set(v for o in outs_sf for q_, v in o.env.get(Explorer.TRACE, ()) if q_ == ".sendfile")
+    ctx.check("C02.R7", sent == {(7, 93)}, key(fs_, "sendfile-from-the-file-objects-position"), site(fs_),
+              "for a file object at position 7 of a 100-byte file whose descriptor stands at 99 (the application read from it and seeked back) Response.sendfile sends %s (offset, count), "
+              "required (7, 93) -- what read() would return: the body is empty or truncated, and with a declared Content-Length on a kept-alive connection the next response is taken for "
+              "the missing bytes" % sorted(map(str, sent)), "sendfile(offset=filelike.tell(), count=size - offset)")
     fw = ctx.fn(repo.func(RESP + ".write_file"))
     loop = [n for n in fw.cfg.nodes if n.kind == "for"]
     ctx.check("C02.R7", len(loop) == 1 and norm(loop[0].ast.iter) == fw.params[1] and any("write(" in b.text for b in fw.cfg.reachable([(loop[0], "true")], follow_exc=False, stop=lambda n: n is loop[0])),
